@@ -140,11 +140,13 @@ def allele_multiset(gt):
 SITE_FIELDS = ("chrom", "pos", "id", "ref", "alts", "qual", "filter", "info")
 
 
-def diff_records(a, b, ignore_format=("PS", "HP", "PQ"), compare_gt="multiset", gt_exact_for=None, fmt_exact_for=None):
+def diff_records(a, b, ignore_format=("PS", "HP", "PQ"), compare_gt="multiset", gt_exact_for=None, fmt_exact_for=None, gt_free_for=None):
     """Compare two parsed record lists (input a, output b). Returns list of (kind, message).
     compare_gt: 'multiset' (allele multiset must agree) / 'exact' / None.
     gt_exact_for(sample, rec) -> True when GT order and phased flag must be untouched.
-    fmt_exact_for(sample, rec) -> True when even the ignore_format keys must be untouched."""
+    fmt_exact_for(sample, rec) -> True when even the ignore_format keys must be untouched.
+    gt_free_for(sample, rec) -> True when the tool may re-genotype the call (distrusted genotypes): the output must then be a
+    complete genotype of the same ploidy over the record's alleles."""
     out = []
     if len(a) != len(b):
         out.append(("record-count", "%d records in, %d out" % (len(a), len(b))))
@@ -170,6 +172,11 @@ def diff_records(a, b, ignore_format=("PS", "HP", "PQ"), compare_gt="multiset", 
             if exact_gt:
                 if cx["GT"] != cy["GT"] or cx["phased"] != cy["phased"]:
                     out.append(("gt-touched", "%s sample %s: GT %r phased=%r -> %r phased=%r" % (where, s, cx["GT"], cx["phased"], cy["GT"], cy["phased"])))
+            elif gt_free_for and gt_free_for(s, x) and allele_multiset(cx["GT"]) != allele_multiset(cy["GT"]):
+                nall = 1 + len(x["alts"] or ())
+                if (cx["GT"] is None or cy["GT"] is None or len(cx["GT"]) != len(cy["GT"])
+                        or any(g is None or not (0 <= g < nall) for g in cy["GT"])):
+                    out.append(("gt-invalid", "%s sample %s: GT %r -> %r is not a complete genotype of the same ploidy over %d alleles" % (where, s, cx["GT"], cy["GT"], nall)))
             elif compare_gt == "multiset":
                 if allele_multiset(cx["GT"]) != allele_multiset(cy["GT"]):
                     out.append(("gt-alleles", "%s sample %s: GT %r -> %r" % (where, s, cx["GT"], cy["GT"])))
